@@ -1,22 +1,16 @@
 import sys, time; sys.path.insert(0,'/verif')
-import z3
 from pyvc import verify, core, interp
 from pyvc.runner import load_contracts
 load_contracts()
-u=[x for x in verify.UNITS if x.unit_name().endswith('ShardVolumeSpec.__init__')][0]
-saved=[]
+name=sys.argv[1]; to=int(sys.argv[2]) if len(sys.argv)>2 else 15000
+u=[x for x in verify.UNITS if x.unit_name().endswith(name)][0]
 orig=core.discharge
-def d(ob, inputs, **kw):
-    if ob.name.startswith('total-bits') or (ob.name.startswith('raises') and '155' in str(ob.lineno)):
-        saved.append(ob)
-    return {"name":ob.name,"fn":ob.fn,"line":ob.lineno,"kind":ob.kind,"time_s":0,"backend":"skip","verdict":"proved"}
+def d(ob, inputs, timeout_ms=20000, **k):
+    t=time.time(); r=orig(ob, inputs, timeout_ms=to, **k)
+    print('  ',r['verdict'],ob.name,round(time.time()-t,2),r.get('backend'), flush=True)
+    return r
 core.discharge=d
-verify.run_unit(u,'symbolic')
-print(len(saved))
-for ob in saved:
-    for nm, mk in [("default", lambda: z3.Solver()), ("smt-tactic", lambda: z3.Then('simplify','smt').solver()),
-                   ("qfnia", lambda: z3.SolverFor("QF_NIA")), ("simple", lambda: z3.SimpleSolver())]:
-        s=mk(); s.set("timeout",30000)
-        for a in ob.assumptions: s.add(a)
-        s.add(z3.Not(ob.goal))
-        t0=time.time(); r=s.check(); print(ob.name, nm, r, round(time.time()-t0,2))
+for cfg in u.configs_for('quick'):
+    t=time.time()
+    r=verify.run_unit(u, cfg)
+    print(cfg,'paths',r['paths'],r['unsupported'],r['crash'],round(time.time()-t,1))
